@@ -5,6 +5,7 @@ package main
 import (
 	"fmt"
 	"go/constant"
+	"math/big"
 	"go/types"
 	"strings"
 
@@ -610,6 +611,24 @@ func (e *enc) evalCall(n *SCall, env *Env) SVal {
 		}
 		cell, vs := e.storeCell(kind)
 		return SVal{t: fmt.Sprintf("(select (select %s %s) %s)", e.get(env.st, cell, e.cellSortOf[cell]), s.t, k.t), sort: vs}
+	case "bitor", "bitand":
+		a, b := arg(0), arg(1)
+		var x, y big.Int
+		if _, ok1 := x.SetString(a.t, 10); ok1 {
+			if _, ok2 := y.SetString(b.t, 10); ok2 {
+				var r big.Int
+				if n.fun == "bitor" {
+					r.Or(&x, &y)
+				} else {
+					r.And(&x, &y)
+				}
+				return SVal{t: r.String(), sort: "Int"}
+			}
+		}
+		if _, ok := y.SetString(b.t, 10); ok && n.fun == "bitor" && y.Sign() > 0 && new(big.Int).And(&y, new(big.Int).Sub(&y, big.NewInt(1))).Sign() == 0 {
+			return SVal{t: orBitTerm(a.t, b.t), sort: "Int"}
+		}
+		return SVal{t: fmt.Sprintf("(%s %s %s)", n.fun, a.t, b.t), sort: "Int"}
 	case "has":
 		// has(m, k): key k is present in map m
 		m, k := arg(0), arg(1)
@@ -622,6 +641,8 @@ func (e *enc) evalCall(n *SCall, env *Env) SVal {
 		}
 		d, _ := e.mapCells(env.st, mt)
 		return SVal{t: fmt.Sprintf("(and (not (= %s null)) (select (select %s %s) %s))", m.t, e.get(env.st, d, e.mapCellSort(d)), m.t, k.t), sort: "Bool"}
+	case "strlt":
+		return SVal{t: fmt.Sprintf("(strlt %s %s)", arg(0).t, arg(1).t), sort: "Bool"}
 	case "hasPrefix":
 		e.declareFun("hasPrefix", "(Str Str) Bool")
 		return SVal{t: fmt.Sprintf("(hasPrefix %s %s)", arg(0).t, arg(1).t), sort: "Bool"}
